@@ -6,7 +6,6 @@ by insertion order for deterministic FIFO behavior among simultaneous events.
 
 import heapq
 import logging
-from itertools import count
 from typing import Union
 
 from happysimulator.core.event import Event
@@ -14,6 +13,24 @@ from happysimulator.core.temporal import Instant
 from happysimulator.instrumentation.recorder import NullTraceRecorder, TraceRecorder
 
 logger = logging.getLogger(__name__)
+
+
+class _IndexCounter:
+    """Source of creation indices for events created while this heap's run is active.
+
+    Behaves like ``itertools.count`` for ``__next__`` but exposes the next value so
+    the heap can keep it above the index of every event pushed so far.
+    """
+
+    __slots__ = ("value",)
+
+    def __init__(self, start: int = 0):
+        self.value = start
+
+    def __next__(self) -> int:
+        v = self.value
+        self.value = v + 1
+        return v
 
 
 class EventHeap:
@@ -45,7 +62,14 @@ class EventHeap:
         self._tracing_enabled = not isinstance(self._trace, NullTraceRecorder)
         # Per-heap event counter for parallel partition isolation.
         # Set via _active_sim_context so Event/ProcessContinuation use it.
-        self._event_counter: count = count()
+        # It always stays above the index of every event pushed so far, so an
+        # event created during the run sorts after every earlier-created event
+        # with the same timestamp (FIFO ties), including pre-run events whose
+        # indices came from the global counter.
+        self._event_counter: _IndexCounter = _IndexCounter()
+        for event in self._heap:
+            if event._sort_index >= self._event_counter.value:
+                self._event_counter.value = event._sort_index + 1
 
     def set_current_time(self, time: Instant) -> None:
         """Update the current simulation time for accurate trace timestamps."""
@@ -108,6 +132,8 @@ class EventHeap:
         return len(self._heap)
 
     def _push_single(self, event: Event) -> None:
+        if event._sort_index >= self._event_counter.value:
+            self._event_counter.value = event._sort_index + 1
         heapq.heappush(self._heap, event)
         if not event.daemon:
             self._primary_event_count += 1
